@@ -11,7 +11,7 @@ const NAMES = ['a', 'b', 'c', 's', 'o', 'arr', 'x', 'y', 'z', 'k', 'fn', 'obj', 
   'substring', 'trim', 'trimStart', 'trimEnd', 'concat', 'slice', 'replace', 'replaceAll', 'padStart', 'padEnd', 'repeat', 'toLowerCase', 'split', 'custom',
   'i', 'v', 'w', 'e', 'p0', 'p1', 'unknownGlobal']
 
-function makeWorld (seed) {
+function makeWorld (seed, sandboxRef) {
   const log = []
   const coerce = []
   let counter = 0
@@ -21,6 +21,17 @@ function makeWorld (seed) {
   const hash = (str) => { let h = (seed * 2654435761) >>> 0; for (let i = 0; i < str.length; i++) h = (Math.imul(h ^ str.charCodeAt(i), 16777619)) >>> 0; return h >>> 3 }
   const next = (name) => { const n = (uses.get(name) || 0) + 1; uses.set(name, n); return hash(name + '#' + n) }
   const names = new WeakMap()
+  const REBINDABLE = ['a', 'b', 'c', 's', 'x', 'y', 'z', 'k']
+  // a call or an implicit coercion may run user code that rebinds a free variable: this is what makes
+  // "which value of `a` does the expression see" observable
+  function maybeRebind (why) {
+    const h = hash('rebind:' + why)
+    if (h % 4 !== 0 || !sandboxRef.box) return
+    const v = REBINDABLE[(h >>> 2) % REBINDABLE.length]
+    const n = (uses.get('rb:' + v) || 0) + 1; uses.set('rb:' + v, n)
+    sandboxRef.box[v] = obs(v + "'" + n, 0)
+    log.push('rebind:' + v + ' by ' + why)
+  }
   function obs (name, depth) {
     const target = function () {}
     const children = new Map()
@@ -31,7 +42,7 @@ function makeWorld (seed) {
     const p = new Proxy(target, {
       get (_, key) {
         if (key === Symbol.toPrimitive) {
-          return (hint) => { coerce.push('prim:' + name + ':' + hint); const h = hash('prim:' + name); return (h % 3 === 0) ? (h % 100) : '<' + name + '>' }
+          return (hint) => { coerce.push('prim:' + name + ':' + hint); if (hint === 'number') maybeRebind('prim:' + name); const h = hash('prim:' + name); return (h % 3 === 0) ? (h % 100) : '<' + name + '>' }
         }
         if (key === Symbol.iterator) {
           log.push('iter:' + name)
@@ -51,6 +62,7 @@ function makeWorld (seed) {
       apply (_, thisArg, args) {
         const id = ++counter
         log.push('call:' + name + ' this=' + show(thisArg) + ' args=[' + args.map(show).join(',') + '] #' + id)
+        maybeRebind('call:' + name + '#' + (uses.get('call:' + name) || 0))
         const k = next('call:' + name) % 7
         if (k === 0) return undefined
         if (k === 1) return null
@@ -83,8 +95,10 @@ function makeWorld (seed) {
 }
 
 function runOne (code, hooksMode, seed, kind) {
-  const w = makeWorld(seed)
+  const ref = { box: null }
+  const w = makeWorld(seed, ref)
   const sandbox = {}
+  ref.box = sandbox
   for (const n of NAMES) sandbox[n] = w.obs(n, 0)
   const hookLog = []
   sandbox._ddiast = new Proxy({}, {
@@ -114,7 +128,7 @@ function runOne (code, hooksMode, seed, kind) {
     outcome = 'throw:' + cls
   }
   // law A-call of the model's Host: reading `.call` / `.apply` of a function value is not an effect
-  const log = w.log.filter(x => !/^get:.*\.(call|apply)$/.test(x))
+  const log = w.log.filter(x => !/^get:.*\.(call|apply)$/.test(x) && !/^rebind:.* by prim:/.test(x))
   return { outcome, log, coerce: w.coerce.slice().sort(), hooks: hookLog }
 }
 
